@@ -75,7 +75,7 @@ def expit(x):
     return 1 / (1 + np.exp(-x))
 
 
-def gen_data(rng, ytype, missing, saturated=False, force_n=None):
+def gen_data(rng, ytype, missing, saturated=False, force_n=None, degenerate=None):
     n = int(force_n or rng.integers(80, 260))
     V = rng.integers(0, 2, n).astype(float)
     W = rng.integers(0, 3, n).astype(float)
@@ -94,6 +94,24 @@ def gen_data(rng, ytype, missing, saturated=False, force_n=None):
              ).astype(float)
     wt = rng.integers(1, 5, n).astype(float) if rng.uniform() < 0.5 else np.round(rng.uniform(0.5, 3.0, n), 2)
     df = pd.DataFrame({'A': A, 'Y': Y, 'V': V, 'W': W, 'L': L, 'Z': Z, 'wt': wt})
+    # ill-scaled modifiers (calendar year, age in days): large uncentred values, tiny relative spread
+    df['yr'] = 2005.0 + rng.integers(-4, 5, n)
+    df['days'] = np.round(15000 + 2000 * rng.normal(size=n))
+    if degenerate:
+        # a rare covariate level (W = 3) in which everybody / nobody is treated, with outcomes unlike the rest:
+        # its fitted Pr(A=1|L) is 0 or 1, so its rows drop out of the estimating equations
+        k = int(rng.integers(1, 5))
+        ex = df.iloc[rng.integers(0, n, k)].copy()
+        ex['W'] = 3.0
+        ex['A'] = 1.0 if degenerate == 'treated' else 0.0
+        ex['Y'] = (ex['Y'] + 4.0) if ytype == 'continuous' else 1.0
+        df = pd.concat([df, ex], ignore_index=True).iloc[rng.permutation(n + k)].reset_index(drop=True)
+        n = n + k
+        A = df['A'].values
+        L = df['L'].values
+        V = df['V'].values
+    if rng.uniform() < 0.2:      # an unused column with missing values: those rows are dropped as documented
+        df['junk'] = np.where(rng.uniform(size=n) < 0.03, np.nan, 1.0)
     if missing != 'none':
         pm = expit(-1.8 + 0.6 * A + 0.5 * (L if not saturated else V))
         df.loc[rng.uniform(size=n) < pm, 'Y'] = np.nan
@@ -161,8 +179,9 @@ def reference(chk, df, expo, weights, missing, miss_den, ipmw_in_use=None):
     X = np.asarray(patsy.dmatrix(expo, cc))
     ww = np.ones(len(cc)) if w is None else w
     score = X.T @ (ww * (cc['A'].values - pi))
-    h_ok = bool(fm.converged) and float(np.max(np.abs(score))) <= 1e-7 * float(np.sum(ww)) \
-        and float(pi.min()) > 1e-6 and float(pi.max()) < 1 - 1e-6
+    # fitted probabilities numerically 0 / 1 (a stratum with everybody or nobody treated) are legitimate: those rows
+    # have A - pi = 0 and drop out; the score equations still hold
+    h_ok = bool(fm.converged) and float(np.max(np.abs(score))) <= 1e-7 * float(np.sum(ww))
     chk.h_checked += 1
     return {'cc': cc, 'w': np.ones(len(cc)) if w is None else np.asarray(w, dtype=float), 'pi': pi,
             'ipmw': ipmw_ref, 'h_ok': h_ok, 'weighted': w is not None}
@@ -261,14 +280,14 @@ def frame_from_record(rec):
     return df
 
 
-def check_closed(chk, drv, df, ytype, p, weights, missing, expo, miss_den, seedinfo, snm=None):
+def check_closed(chk, drv, df, ytype, p, weights, missing, expo, miss_den, seedinfo, snm=None, history='auto'):
     snm = snm or SNMS[p]
     cell = (ytype, p, bool(weights), missing)
     case = {'kind': 'closed', 'ytype': ytype, 'snm': snm, 'weights': bool(weights), 'missing': missing,
             'exposure_model': expo, 'missing_model': miss_den, 'n': len(df), 'data': frame_record(df),
             'seedinfo': seedinfo}
     try:
-        g = run_impl(df, expo, p, weights, missing, miss_den, snm=snm)
+        g = run_impl(df, expo, p, weights, missing, miss_den, snm=snm, history=history)
         psi = np.asarray(g.psi, dtype=float)
         labels = [str(x) for x in g.psi_labels]
         case['history'] = g._verif_history
@@ -291,9 +310,14 @@ def check_closed(chk, drv, df, ytype, p, weights, missing, expo, miss_den, seedi
     d = (a - pi) * w
     Sf = (Vm * (a * d)[:, None]).T @ (Vm * a[:, None])
     cond = np.linalg.cond(Sf) if np.all(np.isfinite(Sf)) else np.inf
-    if not cond < 1e6:
-        chk.discard('lhm ill-conditioned (cond > 1e6): outside the np.linalg.solve assumption')
+    # an ill-conditioned lhm (ill-scaled modifier) only loosens the *forward* comparison of psi in K; the property's
+    # own predicate, the residual of the estimating equations relative to its scale, is what a backward-stable solve
+    # keeps at rounding level whatever the conditioning, and is judged always
+    if not np.isfinite(cond):
+        chk.discard('lhm not finite')
         return None
+    case['cond_lhm'] = float(cond)
+    chk.count('cond_lhm:%s' % ('<1e6' if cond < 1e6 else '1e6-1e10' if cond < 1e10 else '>1e10'))
     case['impl_psi'] = None if psi is None else [float(x) for x in psi]
     case['impl_error'] = err
     arms_ok = all(len(set(cc.loc[cc[m] == lv, 'A'])) == 2 for m in ['V', 'W'] if ('A:%s' % m) in (labels or [])
@@ -342,8 +366,9 @@ def check_closed(chk, drv, df, ytype, p, weights, missing, expo, miss_den, seedi
         if ok:
             mpsi = [float(unrq(t)) for t in dec_list(rep['psi'], str)]
             case['model_psi'] = mpsi
-            # forward error of the float solve <= cond * 1e-15 * |psi| <= 1e-9 * |psi| for cond <= 1e6
-            ok = len(mpsi) == p and all(close(m, q, rtol=1e-8, atol=1e-9) for m, q in zip(mpsi, psi))
+            # forward error of the float solve <= ~cond * 1e-15 * max|psi| (normwise)
+            ftol = max(1e-8, 1e-13 * cond) * max(1.0, float(np.max(np.abs(psi))))
+            ok = len(mpsi) == p and all(abs(m - q) <= ftol + 1e-9 for m, q in zip(mpsi, psi))
         chk.k(ok, 'closed-form psi: model (Cramer, exact) vs implementation', {'case': case, 'model': rep})
         rep2, _ = drv.ask('snm_esteq', psi=enc_list(psi, rq), **kw)
         ok2 = rep2['status'] == 'ok'
@@ -356,7 +381,7 @@ def check_closed(chk, drv, df, ytype, p, weights, missing, expo, miss_den, seedi
     return {'g': g, 'psi': psi, 'labels': labels, 'snm': snm, 'ref': ref, 'Vm': Vm, 'case': case}
 
 
-def check_search(chk, df, ytype, p, weights, missing, expo, miss_den, closed, start_mode):
+def check_search(chk, df, ytype, p, weights, missing, expo, miss_den, closed, start_mode, history='auto'):
     """closed vs search (numerical; Nelder-Mead)"""
     psi_c = closed['psi']
     if start_mode == 'zero':
@@ -367,7 +392,7 @@ def check_search(chk, df, ytype, p, weights, missing, expo, miss_den, closed, st
     case = dict(closed['case'])
     case.update({'kind': 'search', 'start': start})
     try:
-        g = run_impl(df, expo, p, weights, missing, miss_den, solver='search', snm=closed['snm'],
+        g = run_impl(df, expo, p, weights, missing, miss_den, solver='search', snm=closed['snm'], history=history,
                      starting_value=start, maxiter=600)
         res = g._scipy_solver_obj
         psi_s = np.asarray(g.psi, dtype=float)
@@ -411,17 +436,26 @@ def check_search(chk, df, ytype, p, weights, missing, expo, miss_den, closed, st
 def check_saturated(chk, drv, rng, ytype, weights, missing, seedinfo):
     expo = ['C(V)*C(W)', 'C(V)*C(W)*C(Z)', 'C(V)*C(Z)'][int(rng.integers(0, 3))]
     strata_cols = {'C(V)*C(W)': ['V', 'W'], 'C(V)*C(W)*C(Z)': ['V', 'W', 'Z'], 'C(V)*C(Z)': ['V', 'Z']}[expo]
+    # one time in two a rare level W = 3 is added in which everybody / nobody is treated (fitted probability 1 / 0):
+    # those strata carry weight n p (1 - p) = 0 in the closed form
+    degenerate = [None, None, 'treated', 'untreated'][int(rng.integers(0, 4))]
+    if degenerate and 'W' not in strata_cols:
+        expo, strata_cols = 'C(V)*C(W)', ['V', 'W']
     for _ in range(20):
-        df = gen_data(rng, ytype, missing, saturated=True, force_n=int(rng.integers(150, 320)))
+        df = gen_data(rng, ytype, missing, saturated=True, force_n=int(rng.integers(150, 320)), degenerate=degenerate)
         cc0 = df.dropna()
-        grp = cc0.groupby(strata_cols)['A']
-        if grp.nunique().min() == 2 and grp.count().min() >= 4:
+        grp = cc0.loc[cc0['W'] != 3].groupby(strata_cols)['A']
+        if grp.nunique().min() == 2 and grp.count().min() >= 4 and (not degenerate or (cc0['W'] == 3).any()):
             break
     else:
         chk.discard('could not draw a data set with both arms in every stratum')
         return
+    eval_saturated(chk, drv, df, ytype, weights, missing, expo, strata_cols, degenerate, seedinfo)
+
+
+def eval_saturated(chk, drv, df, ytype, weights, missing, expo, strata_cols, degenerate, seedinfo, history='auto'):
     miss_den = 'A + V'
-    res = check_closed(chk, drv, df, ytype, 1, weights, missing, expo, miss_den, seedinfo)
+    res = check_closed(chk, drv, df, ytype, 1, weights, missing, expo, miss_den, seedinfo, history=history)
     if res is None:
         return
     cc, w, psi = res['ref']['cc'], res['ref']['w'], res['psi']
@@ -433,12 +467,16 @@ def check_saturated(chk, drv, rng, ytype, weights, missing, seedinfo):
     keys = {}
     for i, key in enumerate(map(tuple, cc[strata_cols].values.tolist())):
         sid[i] = keys.setdefault(key, len(keys))
-    a, y = cc['A'].values, cc['Y'].values
+    a, y = cc['A'].values.astype(float), cc['Y'].values.astype(float)
+    live = np.ones(len(cc), dtype=bool)
     for s in range(len(keys)):
         idx = np.where(sid == s)[0]
         W_ = sum(F(float(w[i])) for i in idx)
         W1 = sum(F(float(w[i])) for i in idx if a[i] == 1)
         W0 = W_ - W1
+        if W1 == 0 or W0 == 0:
+            live[idx] = False        # everybody / nobody treated: p (1 - p) = 0, the stratum drops out
+            continue
         T1 = sum(F(float(w[i])) * F(float(y[i])) for i in idx if a[i] == 1)
         T0 = sum(F(float(w[i])) * F(float(y[i])) for i in idx if a[i] == 0)
         ps = W1 / W_
@@ -446,19 +484,22 @@ def check_saturated(chk, drv, rng, ytype, weights, missing, seedinfo):
         den += W_ * ps * (1 - ps)
     want = float(num / den)
     case['stratified_closed_form'] = want
-    chk.count('saturated:%s/%s' % ('w' if weights else 'nw', missing))
+    case['degenerate_stratum'] = degenerate
+    case['strata_cols'] = strata_cols
+    chk.count('saturated:%s/%s/%s' % ('w' if weights else 'nw', missing, degenerate or 'both-arms'))
     # 1e-7: the closed form does not pass through the fitted values (admits IRLS convergence error of the GLM)
     chk.d(close(psi[0], want, rtol=1e-7, atol=1e-9),
           'one-parameter SNM, saturated exposure model: psi = sum n p(1-p)(ybar1-ybar0) / sum n p(1-p)', case)
     if drv is not None:
-        kw = driver_args(a, y, res['ref']['pi'], w, res['Vm'])
-        rep, _ = drv.ask('snm_strat', s=enc_list(sid.tolist(), str), **kw)
+        # the model's theorem needs both arms in every stratum: it is fed the strata that carry weight
+        kw = driver_args(a[live], y[live], res['ref']['pi'][live], w[live], res['Vm'][live])
+        rep, _ = drv.ask('snm_strat', s=enc_list(sid[live].tolist(), str), **kw)
         ok = rep['status'] == 'ok' and close(float(unrq(rep['psi'])), psi[0], rtol=1e-7, atol=1e-9)
         if ok:
             # H: the reference GLM is a cell fit on these strata
             fits = [abs(float(unrq(t))) for t in dec_list(rep['fit'], str)]
             chk.h_checked += 1
-            ok = max(fits) <= 1e-7 * float(np.sum(w))
+            ok = max(fits) <= 1e-6 * float(np.sum(w))
         chk.k(ok, 'stratified closed form: model vs implementation', {'case': case, 'model': rep})
 
 
@@ -466,6 +507,10 @@ def check_singular(chk, drv, rng):
     """V identically 0: the A:V column is 0, lhm is singular, np.linalg.solve raises; the model returns none"""
     df = gen_data(rng, 'continuous', 'none')
     df['V'] = 0.0
+    eval_singular(chk, drv, df)
+
+
+def eval_singular(chk, drv, df):
     case = {'kind': 'singular', 'data': frame_record(df)}
     chk.case(case, ('singular', hash(df.to_csv())))
     try:
@@ -510,8 +555,10 @@ def run(chk, drv, rng, tier):
     keep = {}
     for rep in range(reps):
         for (ytype, p, weights, missing) in cells:
-            df = gen_data(rng, ytype, missing)
-            expo = EXPO[int(rng.integers(0, len(EXPO)))]
+            degenerate = [None, 'treated', 'untreated'][int(rng.integers(0, 3))] if rep % 3 == 2 else None
+            df = gen_data(rng, ytype, missing, degenerate=degenerate)
+            expo = EXPO[int(rng.integers(0, len(EXPO)))] if not degenerate else \
+                ['V + C(W) + L', 'C(W) + L + Z', 'C(V)*C(W) + L'][int(rng.integers(0, 3))]
             miss_den = ['A + L', 'A + V + L', 'A + W'][int(rng.integers(0, 3))]
             # how the SNM is written rotates with the repetition: product-first / swapped factors, stateful
             # transforms, random
@@ -520,6 +567,19 @@ def run(chk, drv, rng, tier):
                                {'rep': rep, 'tier': tier}, snm=snm)
             if res is not None and rep == 0:
                 keep[(ytype, p, weights, missing)] = (df, expo, miss_den, res)
+    # ill-scaled effect modifiers (calendar year, age in days): cond(lhm) up to ~1e13; D judges the residual
+    ill = ['A + A:yr', 'A:yr + A', 'A + A:yr + A:V', 'A + A:days', 'A + A:V + A:days', 'A + A:center(yr)']
+    k = 0
+    for rep in range(1 if tier == 'quick' else 6):
+        for ytype in ('continuous', 'binary'):
+            for weights in (False, True):
+                for missing in ('none', 'dropped', 'model_stab'):
+                    snm = ill[k % len(ill)]
+                    k += 1
+                    df = gen_data(rng, ytype, missing)
+                    check_closed(chk, drv, df, ytype, len(snm.split(' + ')), weights, missing,
+                                 ['V + L', 'V + W + L + Z'][k % 2], 'A + L', {'rep': rep, 'tier': tier, 'stream': 'ill'},
+                                 snm=snm)
     # saturated stream
     for rep in range(3 if tier == 'quick' else 20):
         for ytype in ('continuous', 'binary'):
@@ -551,42 +611,64 @@ def run(chk, drv, rng, tier):
 
 
 def replay(rec):
-    """re-run the stored failing cases on the real code and print the estimating-equation residuals"""
+    """re-execute every stored failing case: the stored frame and configuration (SNM as written, models, weights,
+    missing-outcome handling, object history, start values) go through the same check functions again on the
+    implementation under test.  Exit 1 iff a predicate of gate D fails again (known findings do not count)."""
+    import json
     import common
-    rc = 0
+    run_impl.rng = None
+    seen, rc = set(), 0
     for f in rec.get('failures', []):
         case = f['case'].get('case', f['case']) if isinstance(f['case'], dict) else None
         if not case or 'data' not in case:
-            print('no data stored for', f.get('what'))
+            print('no data stored for', f.get('what'), case if case else '')
             continue
+        key = (case.get('kind'), json.dumps(case['data'], sort_keys=True), case.get('snm'), str(case.get('history')),
+               str(case.get('start')))
+        if key in seen:
+            continue
+        seen.add(key)
         df = frame_from_record(case['data'])
-        if case.get('kind') == 'singular':
-            print('singular case; impl =', case.get('impl'))
-            continue
-        p = len(case['snm'].split(' + '))
         chk = common.Check('C15', 'replay', 0)
+        kind = case.get('kind')
         with common.quiet():
-            g = run_impl(df, case['exposure_model'], p, case['weights'], case['missing'], case['missing_model'],
-                         snm=case['snm'], history=case.get('history'))
-            ref = reference(chk, df, case['exposure_model'], case['weights'], case['missing'], case['missing_model'],
-                            ipmw_in_use=g.ipmw)
-        cc = ref['cc']
-        E, S = exact_esteq(cc['A'].values, cc['Y'].values, ref['pi'], ref['w'],
-                           design(cc, [str(x) for x in g.psi_labels]), g.psi)
-        rel = [abs(float(e)) / max(float(s), 1e-300) for e, s in zip(E, S)]
-        print('what:', f['what'])
-        print('  history:', case.get('history'), ' fresh psi:', case.get('fresh_psi'))
-        print('  cell:', case['ytype'], case['snm'], 'weights=%s' % case['weights'], 'missing=%s' % case['missing'],
-              'exposure_model=%r' % case['exposure_model'], 'n=%d' % len(df))
-        print('  psi (closed):', list(map(float, g.psi)), ' relative residual of the estimating equations:', rel)
-        if case.get('kind') == 'search':
-            with common.quiet():
-                gs = run_impl(df, case['exposure_model'], p, case['weights'], case['missing'], case['missing_model'],
-                              solver='search', snm=case['snm'], history=case.get('history'),
-                              starting_value=case.get('start'), maxiter=600)
-            print('  psi (search):', list(map(float, gs.psi)), 'objective', float(gs._scipy_solver_obj.fun))
-        if 'stratified_closed_form' in case:
-            print('  stratified closed form:', case['stratified_closed_form'])
-        if max(rel) > 1e-8:
+            try:
+                if kind == 'singular':
+                    eval_singular(chk, None, df)
+                else:
+                    p = len(case['snm'].split(' + '))
+                    cfg = (case['ytype'], p, case['weights'], case['missing'], case['exposure_model'],
+                           case['missing_model'])
+                    if kind == 'saturated':
+                        eval_saturated(chk, None, df, case['ytype'], case['weights'], case['missing'],
+                                       case['exposure_model'], case['strata_cols'], case.get('degenerate_stratum'),
+                                       {'replay': True}, history=case.get('history'))
+                    elif kind == 'search':
+                        res = check_closed(chk, None, df, *cfg, {'replay': True}, snm=case['snm'], history=None)
+                        if res is not None:
+                            check_search(chk, df, *cfg, res, 'zero' if case.get('start') is None else 'near',
+                                         history=case.get('history'))
+                    else:
+                        check_closed(chk, None, df, *cfg, {'replay': True}, snm=case['snm'],
+                                     history=case.get('history'))
+                err = None
+            except Exception as e:       # noqa: BLE001
+                err = repr(e)
+        print('%s case: %s %s weights=%s missing=%s exposure_model=%r history=%s n=%d'
+              % (kind, case.get('ytype'), case.get('snm'), case.get('weights'), case.get('missing'),
+                 case.get('exposure_model'), case.get('history'), len(df)))
+        if err:
+            print('   raised:', err)
+            rc = 1
+        print('   predicates evaluated: %d, failing: %d, known findings: %s, discards: %s'
+              % (chk.d_cases, len(chk.d_fail), sorted(chk.known_hits), chk.discards))
+        for g in chk.d_fail[:6]:
+            gc = g['case'] if isinstance(g['case'], dict) else {}
+            print('   FAIL', g['what'])
+            for k in ('impl_psi', 'psi_labels', 'esteq_rel_residual', 'fresh_psi', 'search_psi', 'search_fun',
+                      'stratified_closed_form', 'impl_error'):
+                if k in gc:
+                    print('        %s: %s' % (k, gc[k]))
+        if chk.d_fail:
             rc = 1
     return rc
